@@ -61,6 +61,9 @@ extern "C" int harness()
 #endif
     ev.a = nondet_u8();
     __vf_assume(ev.a >= 1 && ev.a <= 3);
+#ifdef ASSUME_UPDATE /* the update path alone (allow::update), affordable one capacity higher for the heavier containers */
+    __vf_assume(ev.a == 2);
+#endif
     ev.pk  = nondet_bool();
     ev.ttl = nondet_i64();
     __vf_assume(ev.ttl >= 0 && ev.ttl < TMAX);
